@@ -203,6 +203,51 @@ class Outcome:
     detail: str = ""
 
 
+def check_targets(label: str, targets: Dict[str, str], features: str = '"derive"') -> Tuple[Dict[str, List[dict]], set]:
+    """Type-check a set of small programs (cargo example targets) against REPO's strum; returns (error diagnostics per target, targets built)."""
+    from corpus import write_if_changed
+    key = hashlib.sha256(("%s|%s|t1" % (common.REPO, label)).encode()).hexdigest()[:10]
+    root = os.path.join(common.WORK, "witness-%s-%s" % (label, key))
+    with common.Lock("witness-%s-%s" % (label, key)):
+        ex = os.path.join(root, "examples")
+        os.makedirs(ex, exist_ok=True)
+        for name, src in targets.items():
+            write_if_changed(os.path.join(ex, name + ".rs"), src)
+        for fn in os.listdir(ex):
+            if fn[:-3] not in targets:
+                os.remove(os.path.join(ex, fn))
+        write_if_changed(os.path.join(root, "Cargo.toml"),
+                         "[package]\nname = \"wit\"\nversion = \"0.0.0\"\nedition = \"2021\"\n\n[workspace]\n\n[dependencies]\nstrum = { path = \"%s/strum\", features = [%s] }\n" % (common.REPO, features))
+        write_if_changed(os.path.join(root, "src", "lib.rs"), "")
+        lock_src = os.path.join(common.REPO, "Cargo.lock")
+        if not os.path.exists(os.path.join(root, "Cargo.lock")) and os.path.exists(lock_src):
+            shutil.copy(lock_src, os.path.join(root, "Cargo.lock"))
+        env = common.cargo_env({"CARGO_TARGET_DIR": os.path.join(root, "target"), "RUSTFLAGS": "-Awarnings"})
+        r = subprocess.run(["cargo", "+nightly", "check", "--offline", "--examples", "--keep-going", "--message-format=json"], cwd=root, env=env,
+                           stdout=subprocess.PIPE, stderr=subprocess.PIPE, text=True)
+        diags: Dict[str, List[dict]] = {}
+        built = set()
+        for line in r.stdout.splitlines():
+            if not line.startswith("{"):
+                continue
+            try:
+                m = json.loads(line)
+            except ValueError:
+                continue
+            tgt = (m.get("target") or {}).get("name")
+            if m.get("reason") == "compiler-message" and tgt:
+                d = m["message"]
+                if d.get("level") == "error" and not str(d.get("message", "")).startswith("aborting due to"):
+                    diags.setdefault(tgt, []).append(d)
+            elif m.get("reason") == "compiler-artifact" and tgt:
+                built.add(tgt)
+        if "wit" not in built:
+            raise common.ToolError("witness crate: strum did not build:\n" + r.stderr[-3000:])
+        common.touch_used(root)
+        common.gc_work([root], prefixes=("witness-",))
+    return diags, built
+
+
 def run_witnesses(tier: str) -> Tuple[List[Outcome], dict]:
     ws = build_witnesses(tier)
     key = hashlib.sha256(("%s|%s|w3" % (common.REPO, tier)).encode()).hexdigest()[:10]
